@@ -210,6 +210,67 @@ def looped_l2(ck):
     mon.check_ttl()
 
 
+def two_gateways(ck):
+    """a host LAN with two routers: the default gateway's best route to the far subnet points back into the LAN it arrived from
+    (hairpin), and the far peer reaches the host through the other router -- so the host learns the peer's address from a
+    neighbour that is NOT its gateway.  Permitted exchanges must succeed; off-subnet traffic must go to the default gateway."""
+    from primaite.simulator.sim_container import Simulation
+    from primaite.simulator.network.hardware.nodes.host.computer import Computer
+    from primaite.simulator.network.hardware.nodes.network.switch import Switch
+    from primaite.simulator.network.hardware.nodes.network.router import Router, ACLAction
+    sim = Simulation()
+    z = {"start_up_duration": 0, "shut_down_duration": 0}
+    sw = {k: Switch.from_config(config=dict(type="switch", hostname=k, num_ports=4, **z)) for k in ("sw1", "sw2", "sw3")}
+    r1 = Router.from_config(config=dict(type="router", hostname="r1", num_ports=2, **z))
+    r2 = Router.from_config(config=dict(type="router", hostname="r2", num_ports=2, **z))
+    h = Computer.from_config(config=dict(type="computer", hostname="h", ip_address="10.0.1.10", subnet_mask="255.255.255.0", default_gateway="10.0.1.1", **z))
+    p = Computer.from_config(config=dict(type="computer", hostname="p", ip_address="10.0.2.10", subnet_mask="255.255.255.0", default_gateway="10.0.2.1", **z))
+    e = Computer.from_config(config=dict(type="computer", hostname="e", ip_address="10.0.3.10", subnet_mask="255.255.255.0", default_gateway="10.0.3.1", **z))
+    for n in list(sw.values()) + [r1, r2, h, p, e]:
+        sim.network.add_node(n)
+        n.power_on()
+    r1.configure_port(1, "10.0.1.1", "255.255.255.0"); r1.configure_port(2, "10.0.3.1", "255.255.255.0")
+    r2.configure_port(1, "10.0.1.2", "255.255.255.0"); r2.configure_port(2, "10.0.2.1", "255.255.255.0")
+    c = sim.network.connect
+    c(sw["sw1"].network_interface[1], h.network_interface[1]); c(sw["sw1"].network_interface[2], r1.network_interface[1]); c(sw["sw1"].network_interface[3], r2.network_interface[1])
+    c(sw["sw2"].network_interface[1], p.network_interface[1]); c(sw["sw2"].network_interface[2], r2.network_interface[2])
+    c(sw["sw3"].network_interface[1], e.network_interface[1]); c(sw["sw3"].network_interface[2], r1.network_interface[2])
+    for r in (r1, r2):
+        r.enable_port(1); r.enable_port(2)
+        r.acl.add_rule(action=ACLAction.PERMIT, position=1)
+    r1.route_table.add_route("10.0.2.0", "255.255.255.0", "10.0.1.2")
+    r2.route_table.set_default_route_next_hop_ip_address("10.0.1.1")
+    ctx = {"topology": "host LAN with two routers: h(10.0.1.10, gw r1) -- sw1 -- r1(.1 | 10.0.3.1 -- e) and r2(.2 | 10.0.2.1 -- p); r1 routes 10.0.2.0/24 via r2"}
+    mon = NetMon(ck, sim, ctx)
+    gw_mac = str(r1.network_interface[1].mac_address)
+    wrong = []
+    o_send = h.network_interface[1].send_frame
+
+    def send(frame, _o=o_send):
+        if frame.ip is not None and str(frame.ip.dst_ip_address).split(".")[2] != "1" and str(frame.ethernet.dst_mac_addr) not in (gw_mac, "ff:ff:ff:ff:ff:ff"):
+            wrong.append((str(frame.ip.dst_ip_address), str(frame.ethernet.dst_mac_addr)))
+        return _o(frame)
+    object.__setattr__(h.network_interface[1], "send_frame", send)
+    hosts = {"h": (h, "10.0.1.10"), "p": (p, "10.0.2.10"), "e": (e, "10.0.3.10")}
+    order = [("p", "h"), ("h", "p"), ("h", "e"), ("e", "p"), ("p", "e"), ("e", "h"), ("h", "p"), ("p", "h")]     # the far peer speaks first
+    for rnd in ("cold", "warm"):
+        for a, b in order:
+            ok = hosts[a][0].ping(hosts[b][1])
+            ck.case(canon=("two-gateways", rnd, a, b), nontrivial=True)
+            if not ok:
+                ck.violation("permitted-ping-failed:two-gateways", "%s: ping %s -> %s failed although every device on the path is on and permits it (%s ARP)"
+                             % (ctx["topology"], a, b, rnd), dict(ctx, src=a, dst=b, phase=rnd))
+            mon.check_ttl()
+    if wrong:
+        ck.violation("off-subnet-traffic-not-sent-to-default-gateway", "host h sent a frame for %s to MAC %s, which is not its default gateway's (%s)" % (wrong[0][0], wrong[0][1], gw_mac),
+                     dict(ctx, frames=wrong[:5]))
+    # the gateway's rules are consulted: deny h -> p ICMP on r1 only; the peer already taught h its address through r2
+    r1.acl.add_rule(action=ACLAction.DENY, position=0, src_ip_address="10.0.1.10", dst_ip_address="10.0.2.10")
+    if h.ping("10.0.2.10"):
+        ck.violation("gateway-rule-bypassed", "h reached p although its default gateway r1 denies h -> p (the only other way is the neighbour router r2, which is not h's gateway)", ctx)
+    ck.case(canon=("two-gateways", "deny"), nontrivial=True)
+
+
 def run(ck):
     ck.rule = ("(a) route tables over a covering set of overlapping prefixes (/8 /12 /16 /24 /25 /32, unmasked addresses), metrics incl. ties, with and "
                "without default route x a fixed destination set: find_best_route vs the model and vs a longest-prefix/lowest-metric oracle, "
@@ -241,6 +302,7 @@ def run(ck):
     for k in range(ck.n(3, 9)):
         topo_case(ck, ck.seed + k, toggles=ck.n(2, 6))
     looped_l2(ck)
+    two_gateways(ck)
 
 
 def replay(ck, path):
